@@ -24,7 +24,12 @@ pub fn expn_str(sp: Span) -> Option<String> {
     }
     let data = sp.ctxt().outer_expn_data();
     Some(match data.kind {
-        rustc_span::ExpnKind::Macro(_, name) => format!("macro:{name}"),
+        rustc_span::ExpnKind::Macro(_, name) => {
+            let krate = data.macro_def_id.map_or("?".to_string(), |d| {
+                rustc_middle::ty::tls::with(|tcx| tcx.crate_name(d.krate).to_string())
+            });
+            format!("macro:{name}@{krate}")
+        }
         rustc_span::ExpnKind::Desugaring(k) => format!("desugar:{k:?}"),
         rustc_span::ExpnKind::AstPass(k) => format!("astpass:{k:?}"),
         rustc_span::ExpnKind::Root => "root".into(),
